@@ -184,6 +184,12 @@ Final == /\ Ev.e = "final"
                  /\ Ev.mem = Len(Ev.keys) * (Ev.leafbase + 8 + 2)
                              + cnt[1] * Ev.sizes[1] + cnt[2] * Ev.sizes[2] + cnt[3] * Ev.sizes[3] + cnt[4] * Ev.sizes[4]
                  /\ Ev.held = Ev.mem /\ Ev.leaked = 0
+                 \* growth/shrink counters move exactly when an inner node is created, replaced by
+                 \* one of another class, or dissolved: the nodes alive per class are accounted for
+                 \* (the index was built from empty and never cleared in these executions)
+                 /\ LET g == <<Ev.st[6], Ev.st[7], Ev.st[8], Ev.st[9], 0>>
+                        h == <<Ev.st[10], Ev.st[11], Ev.st[12], Ev.st[13], 0>>
+                    IN \A c \in 1..4 : cnt[c] = g[c] + h[c + 1] - g[c + 1] - h[c]
          \* no node or root lock left held (C14)
          /\ CheckLive => Ev.locked = 0
          /\ l' = l + 1 /\ UNCHANGED <<abs, pend, scan>>
